@@ -366,6 +366,9 @@ func (d *DBFT[H]) onPrepareRequest(msg ConsensusPayload[H]) {
 	d.processMissingTx()
 	d.updateExistingPayloads(msg)
 	d.PreparationPayloads[msg.ValidatorIndex()] = msg
+	// PreBlock can be constructed only now, PreCommits received before
+	// PrepareRequest are to be verified against it.
+	d.verifyPreCommitPayloadsAgainstPreBlock()
 
 	if !d.hasAllTransactions() || !d.createAndCheckBlock() || d.Context.WatchOnly() {
 		return
